@@ -92,6 +92,22 @@ fn bystander(r: &mut Prng, case: &mut Case) -> Vec<Op> {
 
 pub fn gen_case(r: &mut Prng, big: bool) -> Case {
     let mut case = crate::props::c07::gen_case(r, "C15", true, big);
+    if !case.handlers.is_empty() && r.chance(1, 5) {
+        // containment across nesting levels: one handler of the program re-enters the engine and the
+        // INNER evaluation invokes a handler too, so some fault positions lie inside it (an inner Err
+        // stays inside the inner evaluation, an inner panic unwinds through both)
+        let hi = case.add_handler(HandlerSpec::plain(HKind::CtxFunc, Ret::Const(Val::int(3))));
+        let inner_ctx = CtxSpec { vars: vec![("v".into(), Val::int(2))], funcs: vec![("inner_fn".into(), hi)] };
+        let inner = Op::Exec {
+            prog: Prog::Stmts(vec![bin("=", rf("w"), bin("+", call("inner_fn", vec![rf("v")]), lit_i(1))), rf("w")]),
+            ctx: CtxRef::Fresh(inner_ctx),
+        };
+        let n = case.handlers.len() - 1;
+        let target = r.usize(n);
+        if matches!(case.handlers[target].ret, Ret::Const(_)) {
+            case.handlers[target].actions.push(inner);
+        }
+    }
     // move the evaluation into simulated thread 0 (= task 1); registrations stay in `pre`
     let eval = case.pre.pop().unwrap();
     case.threads.push(vec![eval]);
@@ -236,6 +252,7 @@ impl Prop for C15 {
                 "fault_at_last_invocation",
                 "bystander_overlaps_fault",
                 "fault_storm",
+                "fault_inside_reentrant_evaluation",
             ],
         }
     }
@@ -321,6 +338,9 @@ impl Prop for C15 {
                 for spec in &specs {
                     let out = rt.sim(&c, spec);
                     rt.fired("preempt_in_call", out.rec.preemptions as u64);
+                    if out.log.iter().any(|e| matches!(e, Ev::Fault { hid, .. } if c.slots[0].funcs.iter().all(|(_, h)| h != hid) && c.handlers[*hid].kind == HKind::CtxFunc)) {
+                        rt.probe("fault_inside_reentrant_evaluation");
+                    }
                     if let Some(what) = kind_of_faulted(&c, &out) {
                         rt.fired(if kind == FaultKind::Err { "handler_err" } else { "handler_panic" }, 1);
                         rt.probe(&format!("fault_in_{}", what));
